@@ -170,4 +170,117 @@ theorem intt_ntt_real (P : PrimeSet) (k j : Nat) (g : LaneFwd P k) (gi : LaneInv
   rw [e2, e1]
   exact inttM_nttM _ _ _ j (omegaInv_spec P k j g gi hj).1 (nInv_spec P k j g gi hj).1 _ (by simpa using hv)
 
+/-! ### the integer negacyclic product read modulo `q` -/
+
+/-- residue class of an integer coefficient -/
+abbrev ci (q : Nat) (x : Int) : ZMod q := (x : ZMod q)
+
+theorem map_polyAdd (q : Nat) (a b : Poly) : (Hal.polyAdd a b).map (ci q) = addL (a.map (ci q)) (b.map (ci q)) := by
+  unfold Hal.polyAdd addL
+  induction a generalizing b with
+  | nil => simp
+  | cons x xs ih => cases b with
+    | nil => simp
+    | cons y ys => simp [ih, ci]
+
+theorem map_polyScale (q : Nat) (c : Int) (a : Poly) : (Hal.polyScale c a).map (ci q) = scaleL (ci q c) (a.map (ci q)) := by
+  unfold Hal.polyScale scaleL
+  simp [List.map_map, Function.comp, ci]
+
+theorem map_mulX (q : Nat) (l : Poly) : (Hal.mulX l).map (ci q) = mulXR (l.map (ci q)) := by
+  rcases List.eq_nil_or_concat l with rfl | ⟨l', z, rfl⟩
+  · rfl
+  · simp [List.concat_eq_append, Hal.mulX, mulXR, ci]
+
+/-- the integer product `Hal.negMul` reduces modulo `q` to the product of `Z_q[X]/(X^n+1)` -/
+theorem map_negMul (q : Nat) (a b : Poly) : (Hal.negMul a b).map (ci q) = negMulR (a.map (ci q)) (b.map (ci q)) := by
+  induction a with
+  | nil =>
+    simp only [Hal.negMul, negMulR, List.map_nil, List.map_map]
+    apply List.map_congr_left
+    intro x _
+    simp [ci]
+  | cons a0 as ih =>
+    simp only [Hal.negMul, negMulR, List.map_cons]
+    rw [map_polyAdd, map_polyScale, map_mulX, ih]
+
+theorem mulL_comm {R : Type*} [CommRing R] (a b : List R) : mulL a b = mulL b a := by
+  unfold mulL
+  induction a generalizing b with
+  | nil => simp
+  | cons x xs ih => cases b with
+    | nil => simp
+    | cons y ys => simp [ih, mul_comm]
+
+/-- `b_from_znx64` on a limb: the residues of the coefficients -/
+theorem map_bFrom (q : Nat) (hq : 0 < q) (hq2 : q < 2 ^ 63) (a : Poly) (ha : ∀ c ∈ a, -(2 ^ 63) ≤ c ∧ c < 2 ^ 63) :
+    (a.map (fun c => bFromU64K q (asU64 c))).map (cz q) = a.map (ci q) ∧
+    AllLe (2 ^ 64 - 1) (a.map (fun c => bFromU64K q (asU64 c))) := by
+  refine ⟨?_, ?_⟩
+  · rw [List.map_map]
+    apply List.map_congr_left
+    intro c hc
+    have := bFromU64K_congr q hq hq2 c (ha c hc).1 (ha c hc).2
+    have h2 := (ZMod.intCast_eq_intCast_iff _ _ _).mpr this
+    simp only [Function.comp, cz, ci]
+    rw [← h2]; simp
+  · intro x hx
+    simp only [List.mem_map] at hx
+    obtain ⟨c, hc, rfl⟩ := hx
+    have := bFromU64K_range q hq hq2 c (ha c hc).1 (ha c hc).2
+    omega
+
+/-- the slot products of `svp_apply_dft_to_dft` on two lanes: the point-wise product modulo `q` -/
+theorem map_slotProducts (q h : Nat) (hq : 1 < q) (hq31 : q < 2 ^ 31) (hh : 16 ≤ h) (hh2 : h < 32) :
+    ∀ (fx fp : List Nat), AllLe (2 ^ 64 - 1) fx →
+      (List.zipWith (fun a b => slotProductK q h a b) fx fp).map (cz q) = mulL (fx.map (cz q)) (fp.map (cz q)) ∧
+      AllLe (2 ^ 64 - 1) (List.zipWith (fun a b => slotProductK q h a b) fx fp) := by
+  intro fx
+  induction fx with
+  | nil => intro fp _; simp [mulL, AllLe]
+  | cons a as ih =>
+    intro fp hle
+    cases fp with
+    | nil => simp [mulL, AllLe]
+    | cons b bs =>
+      obtain ⟨ha, has⟩ := hle.cons
+      obtain ⟨i1, i2⟩ := ih bs has
+      obtain ⟨m, l⟩ := slotProductK_modEq q h a b hq hq31 hh hh2 (by omega)
+      simp only [List.zipWith_cons_cons, List.map_cons, mulL] at *
+      refine ⟨?_, ?_⟩
+      · rw [i1, cz_eq_of_modEq m]; unfold cz; push_cast; rfl
+      · intro x hx
+        rcases List.mem_cons.mp hx with rfl | hx
+        · omega
+        · exact i2 x hx
+
+/-- **one lane of the real product pipeline**: with the tables of size `2^j` of prime `k`, the lane
+`b_from_znx64 → ntt_ref → c_from_b → bbc → intt_ref` carries, modulo the prime, the exact negacyclic
+product of the two `i64` limbs -/
+theorem laneK_real (P : PrimeSet) (k j h : Nat) (g : LaneFwd P k) (gi : LaneInv P k) (hj1 : 1 ≤ j) (hj : j ≤ 16)
+    (hh : 16 ≤ h) (hh2 : h < 32) (t ti : TableK) (ht : nttTableK P k (2 ^ j) = .ok t) (hti : inttTableK P k (2 ^ j) = .ok ti)
+    (p x : Poly) (hp : p.length = 2 ^ j) (hx : x.length = 2 ^ j)
+    (hpr : ∀ c ∈ p, -(2 ^ 63) ≤ c ∧ c < 2 ^ 63) (hxr : ∀ c ∈ x, -(2 ^ 63) ≤ c ∧ c < 2 ^ 63) :
+    (laneK (P.qs.getD k 1) h (nttK t) (inttK ti) p x).map (cz (P.qs.getD k 1)) = (Hal.negMul p x).map (ci (P.qs.getD k 1)) ∧
+    (laneK (P.qs.getD k 1) h (nttK t) (inttK ti) p x).length = 2 ^ j := by
+  set q := P.qs.getD k 1 with hq
+  have hqg := g.q_gt
+  have hql := g.q_lt
+  obtain ⟨bp, up⟩ := map_bFrom q (by omega) (by omega) p hpr
+  obtain ⟨bx, ux⟩ := map_bFrom q (by omega) (by omega) x hxr
+  obtain ⟨ep, np, uup⟩ := nttK_real P k j g hj1 hj t ht _ (by simpa using hp) up
+  obtain ⟨ex, nx, uux⟩ := nttK_real P k j g hj1 hj t ht _ (by simpa using hx) ux
+  obtain ⟨es, us⟩ := map_slotProducts q h (by omega) hql hh hh2 _ (nttK t (p.map (fun c => bFromU64K q (asU64 c)))) uux
+  have ns : (List.zipWith (fun a b => slotProductK q h a b) (nttK t (x.map (fun c => bFromU64K q (asU64 c))))
+      (nttK t (p.map (fun c => bFromU64K q (asU64 c))))).length = 2 ^ j := by simp [np, nx]
+  obtain ⟨ei, ni⟩ := inttK_real P k j g gi hj1 hj ti hti _ ns us
+  unfold laneK
+  simp only []
+  refine ⟨?_, ni⟩
+  rw [ei, es, ex, ep, bp, bx, mulL_comm, map_negMul]
+  have hω := omegaZ_pow P k j g hj
+  rw [← nttM_mul _ j _ _ (by simpa using hp) (by simpa using hx) hω]
+  exact inttM_nttM _ _ _ j (omegaInv_spec P k j g gi hj).1 (nInv_spec P k j g gi hj).1 _
+    (by rw [negMulR_length]; simpa using hx)
+
 end Ntt120
